@@ -762,3 +762,42 @@ def _body_def_sites(self, l):
 
 
 Body.def_sites = _body_def_sites
+
+
+# ---------------------------------------------------------------- substitution / inlining
+
+def subst(t, mapping):
+    """replace sub-terms by mapping (exact match), then re-simplify projections of aggregates"""
+    if not isinstance(t, tuple) or not t:
+        return t
+    if t in mapping:
+        return mapping[t]
+    if not isinstance(t[0], str):
+        return tuple(subst(x, mapping) for x in t)
+    k = t[0]
+    if k == "field":
+        base = subst(t[1], mapping)
+        b0 = base
+        while b0[0] in ("ref", "deref"):
+            b0 = b0[2] if b0[0] == "ref" else b0[1]
+        if b0[0] == "agg" and b0[1] in ("tuple", "adt", "closure") and t[2] < len(b0[3]):
+            return b0[3][t[2]]
+        return ("field", base) + t[2:]
+    if k == "deref":
+        base = subst(t[1], mapping)
+        if base[0] == "ref":
+            return base[2]
+        return ("deref", base)
+    if k == "call":
+        return ("call", t[1], tuple(subst(a, mapping) for a in t[2]))
+    if k == "agg":
+        return ("agg", t[1], t[2], tuple(subst(a, mapping) for a in t[3]))
+    if k == "phi":
+        return ("phi", tuple(subst(a, mapping) for a in t[1]))
+    out = [k]
+    for x in t[1:]:
+        if isinstance(x, tuple) and x and isinstance(x[0], str):
+            out.append(subst(x, mapping))
+        else:
+            out.append(x)
+    return tuple(out)
